@@ -144,4 +144,17 @@ theorem getCov_bind {α : Type} (zero one : α) (L : List Name) (kw : List (Name
     simp only
     rw [lookup_zip_map L _ hc]
 
+theorem mem_of_lookup {α : Type} {l : List (Name × α)} {k : Name} {v : α}
+    (h : l.lookup k = some v) : (k, v) ∈ l := by
+  induction l with
+  | nil => simp at h
+  | cons p t ih =>
+    obtain ⟨a, b⟩ := p
+    simp only [List.lookup_cons] at h
+    by_cases hk : k = a
+    · subst hk; simp at h; subst h; simp
+    · have : (k == a) = false := by simpa using hk
+      rw [this] at h
+      exact List.mem_cons_of_mem _ (ih h)
+
 end FormakVerif
